@@ -893,6 +893,10 @@ func run(c *vm.Ctx) {
 		c.Inflight("codecs")
 		codecs(c, r, r.Range(16, 64), c.Pick(60, 200))
 	}
+	for i := 0; i < c.Scale(6, 120); i++ {
+		c.Inflight("independent")
+		independent(c, r, 16, c.Pick(40, 120))
+	}
 	for i := 0; i < c.Scale(40, 800); i++ {
 		c.Inflight("playerlist")
 		playerList(c, r, []int{1, 2, 10}[i%3], r.Range(2, 12), r.Range(20, 200))
